@@ -44,6 +44,7 @@ type twinSpec struct {
 	Queries bool              `json:"queries,omitempty"`
 	LevelDB bool              `json:"leveldb,omitempty"`
 	Repeat  bool              `json:"repeat,omitempty"` // repeated evaluation of pure decisions
+	Race    bool              `json:"race,omitempty"`   // run by the -race build, gRPC queries + simulations CONCURRENT with block execution (race.go)
 }
 
 type params struct {
@@ -188,9 +189,31 @@ func runTwin(c fw.Case, tier string, p params, rec *fw.Recorder) {
 	omni := p.Omni
 	omni.UseLevelDB = p.Spec.LevelDB
 	omni.NoProbe = true
+	var traffic *concurrentTraffic
+	if p.Spec.Race {
+		traffic = &concurrentTraffic{}
+		defer func() { traffic.finish(rec) }()
+	}
 	hooks := c09.Hooks{
+		AfterBringUp: func(w *world.BridgeWorld) {
+			if traffic != nil {
+				traffic.start(w, 3)
+			}
+		},
+		OnBlockFailure: func(no int, height int64, sig, msg string) {
+			// not a determinism question: record where and how the history stopped, as a digest line of its own,
+			// so that twins stopping differently are compared like any other block
+			d := blockDigest{No: no, Height: height, AppHash: "BLOCK-FAILED", Results: sig, Events: sig}
+			b, _ := json.Marshal(d)
+			bw.Write(append(b, '\n'))
+			rec.Count("histories_stopped_by_block_failure", 1)
+			rec.Sample(map[string]any{"history_stopped_by_block_failure_not_a_C08_matter": msg, "signature_C09_would_report": sig})
+		},
 		AfterBlock: func(w *world.BridgeWorld, br *chain.BlockResult, no int) {
 			ch := w.C
+			if traffic != nil {
+				traffic.afterBlock(br)
+			}
 			d := blockDigest{No: no, Height: br.Height, AppHash: hex.EncodeToString(br.AppHash)}
 			d.Txs = h(br.RawTxs...)
 			var all [][]byte
@@ -365,6 +388,8 @@ func runGroup(c fw.Case, tier string, p params, rec *fw.Recorder) {
 		digests []blockDigest
 		cr      fw.CaseResult
 		err     string
+		skipped bool
+		races   []raceReport
 	}
 	results := make([]res, len(p.Twins))
 	done := make(chan int, len(p.Twins))
@@ -377,7 +402,15 @@ func runGroup(c fw.Case, tier string, p params, rec *fw.Recorder) {
 			cc := fw.MkCase(c.Name+"/"+sp.Name, c.Seed, tp)
 			b, _ := json.Marshal(cc)
 			os.WriteFile(base+".case.json", b, 0o644)
-			cmd := exec.Command(self, "worker", "--prop", "C08", "--tier", tier, "--case", base+".case.json", "--out", base+".result.json", "--oplog", "")
+			exe := self
+			if sp.Race {
+				exe = os.Getenv("VERIF_RACE_BIN")
+				if exe == "" {
+					results[i].skipped = true
+					return
+				}
+			}
+			cmd := exec.Command(exe, "worker", "--prop", "C08", "--tier", tier, "--case", base+".case.json", "--out", base+".result.json", "--oplog", "")
 			env := []string{}
 			drop := map[string]bool{}
 			if sp.AllEnv == "unset" {
@@ -400,12 +433,26 @@ func runGroup(c fw.Case, tier string, p params, rec *fw.Recorder) {
 				env = append(env, k+"="+v)
 			}
 			env = append(env, "VERIF_TMP="+base+".tmp")
+			if sp.Race {
+				env = append(env, "GORACE=halt_on_error=0 exitcode=0 log_path="+base+".race")
+			}
 			cmd.Env = env
 			lf, _ := os.Create(base + ".log")
 			cmd.Stdout, cmd.Stderr = lf, lf
 			err := cmd.Run()
 			lf.Close()
 			os.RemoveAll(base + ".tmp")
+			if sp.Race {
+				results[i].races = parseRaceLogs(base + ".race.*")
+				// keep the raw reports next to the per-case logs (the tmp dir is removed after the case)
+				if files, _ := filepath.Glob(base + ".race.*"); len(files) > 0 {
+					for k, f := range files {
+						if b, e := os.ReadFile(f); e == nil {
+							os.WriteFile(filepath.Join(filepath.Dir(tmp), fmt.Sprintf("%s.race-reports-%d.txt", c.Name, k)), b, 0o644)
+						}
+					}
+				}
+			}
 			if err != nil {
 				results[i].err = fmt.Sprintf("twin %s failed: %v (log %s)", sp.Name, err, base+".log")
 				return
@@ -434,7 +481,20 @@ func runGroup(c fw.Case, tier string, p params, rec *fw.Recorder) {
 	for range p.Twins {
 		<-done
 	}
+	kept := results[:0]
 	for _, r := range results {
+		if r.skipped {
+			rec.Count("race_twin_skipped_no_race_binary", 1)
+			continue
+		}
+		kept = append(kept, r)
+	}
+	results = kept
+	for _, r := range results {
+		if r.spec.Race && r.err == "" {
+			rec.Count("race_twins_run", 1)
+			judgeRaces(r.races, r.spec.Name, rec)
+		}
 		if r.err != "" {
 			rec.Inconclusive(r.err)
 			return
@@ -465,6 +525,14 @@ func runGroup(c fw.Case, tier string, p params, rec *fw.Recorder) {
 			a, b := base.digests[i], o.digests[i]
 			rec.Eval(1)
 			rec.Count("blocks_compared", 1)
+			if fa, fb := a.AppHash == "BLOCK-FAILED", b.AppHash == "BLOCK-FAILED"; fa || fb {
+				if fa != fb || a.Results != b.Results {
+					rec.Violation("twin-divergence/"+variation(o.spec)+"/block-failure", fmt.Sprintf("twins %q and %q executed the same blocks; at height %d block execution failed in one of them only, or differently (%s vs %s)", base.spec.Name, o.spec.Name, a.Height, a.Results, b.Results),
+						map[string]any{"height": a.Height, "block_no": a.No, "twin_a": base.spec, "twin_b": o.spec})
+					diverged = true
+				}
+				continue
+			}
 			if a.Txs != b.Txs {
 				// identical app hashes so far but different inputs: the HARNESS was not deterministic
 				rec.Inconclusive(fmt.Sprintf("twins %s/%s: workload diverged at block %d although all earlier digests agree", base.spec.Name, o.spec.Name, a.No))
@@ -515,6 +583,9 @@ func variation(s twinSpec) string {
 	if s.LevelDB {
 		v = append(v, "leveldb")
 	}
+	if s.Race {
+		v = append(v, "concurrent-queries")
+	}
 	if len(v) == 0 {
 		return "none"
 	}
@@ -539,6 +610,9 @@ func cases(tier string, seed int64) []fw.Case {
 		if tier == "thorough" {
 			twins = append(twins, twinSpec{Name: "env-set+restart+queries+leveldb", AllEnv: "set", Restart: true, Queries: true, LevelDB: true},
 				twinSpec{Name: "plain-repeat", AllEnv: "unset"})
+			if i%4 == 0 {
+				twins = append(twins, twinSpec{Name: "race+concurrent-queries", AllEnv: "unset", Race: true})
+			}
 		}
 		cs = append(cs, fw.MkCase(fmt.Sprintf("group-%02d", i), seed*32452843+int64(i), params{Mode: "group", Omni: omni, Twins: twins}))
 	}
